@@ -32,7 +32,7 @@ func init() {
 func c29Specs(full bool) []docgen.SigSpec {
 	shapes := []string{"merged", "kid", "nested", "nested-kid"}
 	perms := []string{"", "DocMDP", "UR3", "both"}
-	conts := []string{"classic", "xrefstream", "objstream"}
+	conts := []string{"classic", "xrefstream", "objstream", "classic-indirect-annots"}
 	bools := []bool{false, true}
 	var all []docgen.SigSpec
 	for _, sh := range shapes {
